@@ -189,3 +189,75 @@ def check_unit(run, u, rule, do_resolve=True):
                               "table walk of %s for signature shape %s (policy %s) is %s, documented walk is %s" % (
                                   fq, shape, pol, sym.show(got)[:300], sym.show(exp)[:300]),
                               f.where(), detail={"got": sym.show(got), "expected": sym.show(exp), "function": f.dname})
+
+
+def parse_method_class(dname):
+    """'yorel::yomm2::method<K, R (P...), Policy>::operator()(...) const' -> (class text, [params], policy)"""
+    d = irq.strip_ret(dname)
+    m = re.search(r">::operator\(\)\(", d)
+    if not m or not d.startswith("yorel::yomm2::method<"):
+        return None
+    cls = d[:m.start() + 1]
+    ta = irq.template_args(cls)
+    if not ta or len(ta) < 2:
+        return None
+    sig = ta[1]
+    # R (P1, P2, ...): the parameter list is the last top-level parenthesis group
+    depth = 0
+    start = None
+    for i in range(len(sig) - 1, -1, -1):
+        ch = sig[i]
+        if ch == ")":
+            depth += 1
+        elif ch == "(":
+            depth -= 1
+            if depth == 0:
+                start = i
+                break
+    if start is None:
+        return None
+    params = irq.split_top(sig[start + 1:-1]) if sig[start + 1:-1].strip() else []
+    return cls, params, (ta[2] if len(ta) > 2 else "default")
+
+
+def is_virtual_param(p):
+    p = p.strip()
+    return p.startswith("yorel::yomm2::virtual_<") or p.startswith("yorel::yomm2::virtual_ptr<") or p.startswith("const yorel::yomm2::virtual_ptr<")
+
+
+def check_module_generic(run, mod, rule, unit):
+    """C01-walk over every method::operator() instantiated in an arbitrary unit (the repository's own tests / examples)."""
+    S = sym.Sym(mod, opaque=OPAQUE)
+    n = 0
+    for f in list(mod.funcs.values()):
+        if not f.body or "::add_function<" in f.dname:
+            continue
+        pm = parse_method_class(f.dname)
+        if pm is None:
+            continue
+        cls, params, pol = pm
+        vpos = [i for i, p in enumerate(params) if is_virtual_param(p)]
+        if not vpos:
+            continue
+        ss = cls + "::slots_strides"
+        if any(g["dname"].startswith("yorel::yomm2::detail::static_offsets<" + cls) for g in mod.globals.values()):
+            continue        # compile-time offsets: decided by C12 on its own witnesses
+        calls = [i for i in f.all_insts() if i.op in ("call", "invoke") and i.get("indirect")]
+        if len(calls) != 1:
+            run.notes.append("%s: %s has %d indirect calls, skipped" % (unit, f.dname[:100], len(calls)))
+            continue
+        src = source_groups(f)
+        if len(src) != len(params):
+            run.notes.append("%s: cannot map IR arguments of %s" % (unit, f.dname[:100]))
+            continue
+        v = S.value(f, calls[0].get("indirect"))
+        got = normalise_leaves(f, v, src, vpos, [], S)
+        nn = len(vpos)
+        exp = expected(nn, ("global", ss), ("global", ss), nn - 1)
+        ok = got == exp
+        n += 1
+        mask = "".join("v" if i in vpos else "n" for i in range(len(params)))
+        run.instance(rule, "%s: operator() of %s (mask %s)" % (unit, re.sub(r"yorel::yomm2::", "", cls)[:120], mask), f.where(), ok=ok)
+        if not ok:
+            run.violation(rule, "method::operator()|shape-mask=%s|repo" % mask, "table walk of %s (unit %s) is %s, documented walk is %s" % (cls[:160], unit, sym.show(got)[:300], sym.show(exp)[:300]), f.where())
+    return n
